@@ -208,7 +208,7 @@ func (fc *FnCtx) havocAllExcept(st *State, except map[string]bool) {
 		fc.unsup("havoc in pure function")
 	}
 	for _, k := range fc.keys {
-		if strings.HasPrefix(k, "ghost:") || strings.HasPrefix(k, "iter:") || strings.HasPrefix(k, "called:") || strings.HasPrefix(k, "calledafter:") || k == "alloc" || fc.eng.constGlobalKey(k) || except[k] {
+		if strings.HasPrefix(k, "ghost:") || strings.HasPrefix(k, "iter:") || strings.HasPrefix(k, "called:") || strings.HasPrefix(k, "calledafter:") || strings.HasPrefix(k, "calledwith:") || k == "alloc" || fc.eng.constGlobalKey(k) || except[k] {
 			continue
 		}
 		st.heap[k] = fc.tb.Fresh("hv!"+k, fc.keySort[k])
